@@ -33,15 +33,20 @@ theorem cleanup_eq (s : State) (hb : batchCleanupSrc = .observedExternal) (hc : 
   have e1 : heightOf batchCleanupSrc s = s.obsExt := by rw [hb]; rfl
   have e2 : heightOf callCleanupSrc (cleanupBatches s) = s.obsExt := by rw [hc]; rfl
   have hs := cleanupCalls_settled (cleanupBatches s)
-  have hbal : (cleanupCalls (cleanupBatches s)).bal = _ := foldl_refundCall_bal
+  obtain ⟨fm, er, hfm⟩ := cleanupCalls_core (cleanupBatches s)
+  have hbal : (cleanupCallsCore (cleanupBatches s)).bal = _ := foldl_refundCall_bal
     (expiredCalls (heightOf callCleanupSrc (cleanupBatches s)) (cleanupBatches s).calls)
     { cleanupBatches s with calls := if callCleanupDeletes then keptCalls (heightOf callCleanupSrc (cleanupBatches s)) (cleanupBatches s).calls else (cleanupBatches s).calls }
   obtain ⟨h1, h2, h3, _, _, _, _⟩ := foldl_refundCall
     (expiredCalls (heightOf callCleanupSrc (cleanupBatches s)) (cleanupBatches s).calls)
     { cleanupBatches s with calls := if callCleanupDeletes then keptCalls (heightOf callCleanupSrc (cleanupBatches s)) (cleanupBatches s).calls else (cleanupBatches s).calls }
-  have p : (cleanupCalls (cleanupBatches s)).pool = _ := h1
-  have b : (cleanupCalls (cleanupBatches s)).batches = _ := h2
-  have c : (cleanupCalls (cleanupBatches s)).calls = _ := h3
+  have p : (cleanupCallsCore (cleanupBatches s)).pool = _ := h1
+  have b : (cleanupCallsCore (cleanupBatches s)).batches = _ := h2
+  have c : (cleanupCallsCore (cleanupBatches s)).calls = _ := h3
+  have hbal := (show (cleanupCalls (cleanupBatches s)).bal = (cleanupCallsCore (cleanupBatches s)).bal by rw [hfm]).trans hbal
+  have p := (show (cleanupCalls (cleanupBatches s)).pool = (cleanupCallsCore (cleanupBatches s)).pool by rw [hfm]).trans p
+  have b := (show (cleanupCalls (cleanupBatches s)).batches = (cleanupCallsCore (cleanupBatches s)).batches by rw [hfm]).trans b
+  have c := (show (cleanupCalls (cleanupBatches s)).calls = (cleanupCallsCore (cleanupBatches s)).calls by rw [hfm]).trans c
   simp only [slice, cleanupAt, p, b, c, hs, hbal, e2]
   simp [cleanupBatches, cancelBatches, e1]
 
